@@ -227,7 +227,8 @@ func (e *Enc) acquireHavoc(obj Term, st types.Type, decl *LockDecl) {
 					srt, _ := ghostSort(e, g.Sort)
 					hn := "GF$" + typeKey(stripTypeArgs(st)) + "." + g.Name
 					hsrt := fmt.Sprintf("(Array Int %s)", srt)
-					e.hset(e.cur, hn, hsrt, tStore(e.hget(e.cur, hn, hsrt), obj, e.fresh("acq_"+g.Name, srt)))
+					Hg := e.hget(e.cur, hn, hsrt)
+					e.hset(e.cur, hn, hsrt, tIte(e.isFresh(obj), Hg, tStore(Hg, obj, e.fresh("acq_"+g.Name, srt))))
 				}
 			}
 		}
@@ -239,7 +240,12 @@ func (e *Enc) acquireHavoc(obj Term, st types.Type, decl *LockDecl) {
 		env.pkg = n.Obj().Pkg()
 	}
 	for _, cl := range decl.Invs {
-		e.assume(env.evalBool(cl.Expr))
+		t := env.evalBool(cl.Expr)
+		// an object allocated in this activation was not touched by anybody else: its lock invariant is not a gift of the
+		// monitor rule but has to be established by this function before its first acquisition (a constructor that broke
+		// it used to make the rest of its path vacuous)
+		e.oblige("lock", e.ordName("lockinv:fresh"), tImp(e.isFresh(obj), t), token.NoPos, "the lock invariant of an object allocated in this activation holds at the acquisition: "+cl.Src)
+		e.assume(t)
 	}
 }
 
